@@ -789,6 +789,12 @@ def s3(rep, F):
                             rv = peel(x.get("recv"))
                             if isinstance(rv, dict) and rv.get("k") == "local":
                                 sinks.add(rv["id"])
+            # the same transfer written as sink.extend(<errors>.iter().map(..)) / sink.append(..)
+            if n2.get("k") == "mcall" and n2.get("m") in ("extend", "append", "extend_from_slice") and n2.get("args"):
+                if any(x.get("k") == "local" and x.get("id") in D for x in walk(n2["args"])):
+                    rv = peel(n2.get("recv"))
+                    if isinstance(rv, dict) and rv.get("k") == "local":
+                        sinks.add(rv["id"])
         ok = False
         for s2 in walk(pv["body"]):
             if s2.get("k") == "let" and s2.get("init") is not None:
